@@ -342,6 +342,8 @@ func (b *EvaluationKeys) ReadFrom(r io.Reader) (n int64, err error) {
 			}
 
 			n += inc
+		} else {
+			b.MemEvaluationKeySet = nil
 		}
 
 		return n, nil
